@@ -14,89 +14,96 @@ def _fmt_unescape(lit):
     return lit.replace("{{", "{").replace("}}", "}")
 
 
-def writer_reader_rule(syn, prop, rule="C05.R6"):
-    r = Result(rule, "writer/reader agreement for shared files: the import line re-emitted by merge() has the same shape as the one written by generate_imports(); merge()'s parse markers occur in that shape; DECLARATION_START equals generate_decl's `export ` followed by the `type ` that every decl template starts with; the header ends with the blank line merge() splits on")
-    gi = syn.fn("export::generate_imports", "export.rs")
-    mg = syn.fn("export::merge", "export.rs")
+def _import_line(ems):
+    """canonical text of the import statement a function emits: literal pieces in control-flow order, one ARG per
+    interpolated value, the name separator taken out (it is reported separately)"""
+    pieces = [t for _, t in ems]
+    seps = [t for t in pieces if t in (", ", "<join:, >")]
+    txt = "".join(t for t in pieces if t not in (", ", "<join:, >") and not t.startswith("<join:"))
+    txt = re.sub(M.ARG + "+", M.ARG, txt)
+    m = re.search(r"import type \{.*?\";\n?", txt, re.S)
+    return (m.group(0) if m else None), bool(seps)
+
+
+def writer_reader_rule(syn, prop, rule="C05.R6", crate=None):
+    r = Result(rule, "writer/reader agreement for shared files, read off the literal text the two functions append (MIR, helpers spliced in, control-flow order): the import statement re-emitted by merge() is character for character the one generate_imports() writes, both separate names by `, `; every literal merge() parses import lines with occurs in that statement; DECLARATION_START equals generate_decl's `export ` followed by the `type ` that every decl template starts with; the header ends with the blank line merge() splits on")
+    gi = crate.ibody("export::generate_imports") if crate else None
+    mg = crate.ibody("export::merge") if crate else None
     gd = syn.fn("export::generate_decl", "export.rs")
     if not (gi and mg and gd):
         r.fail(prop, "anchor-missing writer/reader", "generate_imports / merge / generate_decl not found")
         return r
-    # writer shape: sequence of write!/writeln! literals in the import loop
-    w = []
-    for e in S.events(gi, "macro"):
-        if e["name"] in ("write", "writeln") and any(c["k"] == "for" for c in e["ctx"]):
-            toks = [t for t in e["tokens"] if isinstance(t, str)]
-            lit = next((S.unquote(t) for t in toks if t.startswith('"') or t.startswith("r")), None)
-            if lit is not None:
-                w.append(_fmt_unescape(lit) + ("\n" if e["name"] == "writeln" else ""))
-    writer = "".join(x for x in w)
-    writer = re.sub(r"\{ty\}", "<T>", writer)
-    writer = re.sub(r"\{path\}", "<P>", writer)
-    # merge re-emission: push_str literals inside the imports loop, with variable pushes as placeholders
-    m = []
-    for e in mg["events"]:
-        if e["kind"] == "mcall" and e["method"] == "push_str" and S.squash(e["recv"]) == "imports":
-            a = S.squash(e["args"][0])
-            if a.startswith('"'):
-                m.append(S.unquote(e["args"][0].strip()) if e["args"][0].strip().startswith('"') else a)
-            elif a == "ty":
-                m.append("<T>")
-            elif a == "path":
-                m.append("<P>")
-            else:
-                m.append("<?%s>" % a)
-    # order in source: "import type { ", <T>, ", ", " } from \"", <P>, "\";\n"
-    reader_emit = "".join(m)
-    canon_w = writer.replace("<T>, ", "").replace(", <T>", "")
-    canon_m = reader_emit.replace("<T>, ", "").replace(", <T>", "")
-    # writer text has pieces in loop order: "import type { " "<T>" ", " " } from \"<P>\";\n"
-    canon_w = canon_w.replace("<T>, ", "")
-    ok = canon_w.replace(", ", "", 1) == canon_m.replace(", ", "", 1) if (", " in canon_w and ", " in canon_m) else canon_w == canon_m
-    r.inst(writer_import_line=writer, merge_import_line=reader_emit, same_shape=ok)
+    w_ems, m_ems = M.group_emissions(crate, "export::generate_imports"), M.group_emissions(crate, "export::merge")
+    w_line, w_sep = _import_line(w_ems)
+    m_line, m_sep = _import_line(m_ems)
+    show = lambda x: None if x is None else x.replace(M.ARG, "<..>")
+    ok = w_line is not None and w_line == m_line and w_sep == m_sep
+    r.inst(writer_import_line=show(w_line), merge_import_line=show(m_line), names_separated_by_comma=(w_sep, m_sep), same_shape=ok)
     if not ok:
-        r.fail(prop, "import-line-shape generate_imports/merge", "generate_imports writes %r but merge() re-emits %r: after a merge the file's imports have a different shape than freshly written ones" % (writer, reader_emit),
-               mg["file"], mg["line"])
+        r.fail(prop, "import-line-shape generate_imports/merge", "generate_imports writes %r but merge() re-emits %r: after a merge the file's imports have a different shape than freshly written ones" % (show(w_line), show(m_line)),
+               mg.file(), mg.line())
     # merge's parse markers must occur in the writer's line
+    sample = (w_line or "").replace(M.ARG, "X, X", 1).replace(M.ARG, "P")
+    group = crate.owned_by("export::merge")
     markers = []
-    for e in S.events(mg, "strlit"):
-        if any(c["k"] == "arg" and re.search(r"(split_once|trim_start_matches|trim_end_matches|split)$", S.squash(c["of"])) for c in e["ctx"]) and \
-                any(c["k"] in ("closure",) or True for c in e["ctx"]):
-            of = [S.squash(c["of"]) for c in e["ctx"] if c["k"] == "arg"][-1]
-            if of.startswith(("line.", "import.", "from.")) or "import" in of or ".trim_end_matches" in of and e["value"] in (" }",):
-                markers.append(e["value"])
-    line = writer.split("\n")[0]
-    for mk in markers:
-        ok = mk in line
+    for b in crate.bodies:
+        if b.path not in group:
+            continue
+        for blk, t in b.calls():
+            if b.is_cleanup(blk) or not fn_matches(t, r"str::<impl str>::(split_once|rsplit_once|trim_start_matches|trim_end_matches|split|strip_prefix|strip_suffix|starts_with|ends_with|find)$"):
+                continue
+            c = op_const(t["args"][1]) if len(t["args"]) > 1 else None
+            v = (c or {}).get("str")
+            if v is None or not v.strip() or v == "\n\n" or "DECLARATION_START" in json.dumps(c) or v == "export type ":
+                continue
+            markers.append(v)
+    for mk in sorted(set(markers)):
+        ok = mk in sample
         r.inst(merge_marker=mk, occurs_in_written_import_line=ok)
         if not ok:
-            r.fail(prop, "import-marker-mismatch %r" % mk, "merge() parses import lines with marker %r, which does not occur in the line generate_imports writes (%r)" % (mk, line), mg["file"], mg["line"])
+            r.fail(prop, "import-marker-mismatch %r" % mk, "merge() parses import lines with marker %r, which does not occur in the line generate_imports writes (%r)" % (mk, sample), mg.file(), mg.line())
     # DECLARATION_START
     ds = [it for it in syn.items if it["kind"] == "const" and it["name"] == "DECLARATION_START" and it["file"].endswith("export.rs")]
-    exp = [e["value"] for e in S.events(gd, "strlit") if any(c["k"] == "arg" and S.squash(c["of"]).endswith(".push_str") for c in e["ctx"])]
+    gdb = crate.ibody("export::generate_decl")
+    exp = [t for _, t in M.text_emissions(gdb) if t.strip(M.ARG)] if gdb else []
     decl_prefixes = set()
     gdf = syn.fn("DerivedTS::generate_decl_fn", "macros/src/lib.rs")
     if gdf:
-        for e in S.events(gdf, "macro"):
-            if e["name"] in ("quote",):
-                for lit, _ in S.format_calls(e["tokens"]):
-                    v = S.unquote(lit) or ""
-                    if v.startswith("type "):
-                        decl_prefixes.add("type ")
-                    elif v:
-                        decl_prefixes.add(v[:5])
+        for f2 in [gdf] + [f for f in syn.fns if f["file"] == gdf["file"] and f is not gdf and any(S.squash(e.get("func", "")).endswith(f["name"]) for e in S.events(gdf, "call"))]:
+            for e in S.events(f2, "macro"):
+                if e["name"] in ("quote",):
+                    for lit, _ in S.format_calls(e["tokens"]):
+                        v = S.unquote(lit) or ""
+                        if v.startswith("type "):
+                            decl_prefixes.add("type ")
+                        elif v:
+                            decl_prefixes.add(v[:5])
     val = S.unquote(ds[0]["value"].strip()) if ds else None
     ok = bool(ds) and len(exp) == 1 and decl_prefixes == {"type "} and val == exp[0] + "type "
     r.inst(DECLARATION_START=val, generate_decl_literal=exp, decl_template_prefixes=sorted(decl_prefixes), agree=ok)
     if not ok:
-        r.fail(prop, "declaration-start-mismatch", "merge() looks for %r but declarations are written as %r + %s" % (val, exp, sorted(decl_prefixes)), mg["file"], mg["line"])
-    # header terminated by a blank line
-    last = [e for e in S.events(gi, "macro") if e["name"] in ("write", "writeln")]
-    ok = bool(last) and last[-1]["name"] == "writeln" and S.squash(last[-1]["text"]) == "out" and not any(c["k"] in ("for", "while", "if") for c in last[-1]["ctx"])
-    seps = [e["value"] for e in S.events(mg, "strlit") if any(c["k"] == "arg" and S.squash(c["of"]).endswith("contents.split_once") for c in e["ctx"])]
-    r.inst(header_blank_line_written=ok, merge_splits_header_on=seps)
+        r.fail(prop, "declaration-start-mismatch", "merge() looks for %r but declarations are written as %r + %s" % (val, exp, sorted(decl_prefixes)), mg.file(), mg.line())
+    # header terminated by a blank line: the last text generate_imports appends on its way to `Ok` is a lone line feed
+    # (every import statement ends in one), and merge() cuts the header off at the first empty line
+    rets = [b for b in gi.returns()]
+    last = [(b, t) for b, t in w_ems if all(gi.dominates(b, x) or x in M.error_blocks(gi) for x in rets)]
+    plain = crate.body("export::generate_imports")
+    own = [(b, t) for b, t in w_ems if b is not None]
+    tail = own[-1][1] if own else None
+    ok = tail == "\n" and bool(w_line) and w_line.endswith("\n") and gi.all_paths_pass(0, {own[-1][0]} | M.error_blocks(gi), rets)
+    seps = []
+    for b in crate.bodies:
+        if b.path in group:
+            for blk, t in b.calls():
+                if not b.is_cleanup(blk) and fn_matches(t, r"str::<impl str>::split_once$") and len(t["args"]) > 1 and (op_const(t["args"][1]) or {}).get("str") is not None:
+                    v = op_const(t["args"][1])["str"]
+                    if not v.strip(" "):
+                        continue
+                    if set(v) == {"\n"}:
+                        seps.append(v)
+    r.inst(header_blank_line_written=ok, merge_splits_header_on=sorted(set(seps)))
     if not ok or set(seps) != {"\n\n"}:
-        r.fail(prop, "header-separator-mismatch", "generate_imports does not end the header with an empty line, or merge() splits the header on %r" % seps, gi["file"], gi["line"])
+        r.fail(prop, "header-separator-mismatch", "generate_imports does not end the header with an empty line, or merge() splits the header on %r" % seps, gi.file(), gi.line())
     r.floor = 6
     return r
 
@@ -230,9 +237,12 @@ def sort_key_agreement_rule(crate, prop, rule="C05.R8"):
             while k < min(len(a), len(c)) and a[k] == c[k]:
                 k += 1
             # the shared prefix is the key extraction; the tails are the two different sources of text
-            same = k >= 4 or (k >= 1 and a[0].startswith("local:"))
-            r.inst(fn=b.path, where="%s:%s" % (f, l), left_key=a[:8], right_key=c[:8], same_derivation=same)
-            if not same:
+            same = k >= 4 or (k >= 1 and any(x.startswith("local:") for x in a[:k]))
+            # inside a closure the operands are the closure's parameter / captured variables: their derivation lies in the
+            # enclosing function (elements of a collection built elsewhere) and is not followed - undecided, not a disagreement
+            undecided = (not same) and b.kind == "Closure" and (a[-1:] == ["arg"] or c[-1:] == ["arg"])
+            r.inst(fn=b.path, where="%s:%s" % (f, l), left_key=a[:8], right_key=c[:8], same_derivation=same, undecided=undecided)
+            if not same and not undecided:
                 r.fail(prop, "sort-key-derivation-differs %s" % re.sub(r"::\{closure#\d+\}", "", b.path),
                        "the two sides of the ordering comparison are derived differently (%s vs %s): e.g. a name with generic parameters is compared with one without, and the result depends on export order" % (a[:6], c[:6]), f, l)
     if n == 0:
@@ -308,7 +318,7 @@ def declaration_blank_line_rule(crate, prop, rule="C05.R13"):
     the derive, a `#[ts(type = "..")]` override copied verbatim, a hand-written `impl TS` - the place where that text enters a
     file must make sure it contains none."""
     r = Result(rule, "in generate_decl() the text of `T::decl()` passes a blank-line elimination that runs to a fixpoint (`while s.contains(\"\\n\\n\") { s = s.replace(\"\\n\\n\", ..) }`) before it is appended to the file text, so that no declaration can be cut in two when another type is merged into the same file later")
-    b = crate.body("export::generate_decl")
+    b = crate.ibody("export::generate_decl")
     if b is None:
         r.fail(prop, "anchor-missing export::generate_decl", "not found")
         return r
